@@ -489,8 +489,8 @@ fn main() {
                 let an: Vec<&str> = accts.iter().map(|x| x.as_str()).collect();
                 let mut everyone = an.clone();
                 everyone.push(OPERATOR);
-                // one run in five works at the i128 edge (amounts: whole units of 2^124 +- 1, i128::MAX)
-                let edge = run % 5 == 4;
+                // one run in three works at the i128 edge (amounts: whole units of 2^124 +- 1, i128::MAX)
+                let edge = run % 3 == 2;
                 let lat = |x: i64| if edge { (x + FINE / 2).div_euclid(FINE) * FINE } else { x };
                 let mut sys = Sys::new(&accts, edge);
                 t.reset(reset_event(&sys));
@@ -556,7 +556,9 @@ fn main() {
                     let supply = obs["supply"].as_i64().unwrap_or(0);
                     let op = match kind {
                         "mint" => {
-                            let a = if edge {
+                            let a = if edge && step == 0 && r.gen_bool(0.6) {
+                                AMAX // one wallet holding i128::MAX: the state in which sums with the balance overflow
+                            } else if edge {
                                 *pick(&mut r, &[-1i64, 0, 1, FINE, 3 * FINE, 5 * FINE, 7 * FINE, AMAX, AMAX - supply, AMAX - supply + 1, AMAX - supply - 1])
                             } else {
                                 *pick(&mut r, &[-1i64, 0, 1, 1, 2, 3, 5, 10, 40])
